@@ -2013,6 +2013,14 @@ func (db *DB) CommitJournal(ctx context.Context, mode JournalMode) (err error) {
 		return fmt.Errorf("cannot read database size: %w", err)
 	}
 
+	// SQLite leaves WAL mode by rewriting the version bytes of page 1 through
+	// a rollback journal once the WAL has been checkpointed and removed. Writes
+	// to the database file are not tracked as dirty while the mode is still
+	// WAL so the page has to be added to the transaction here.
+	if db.Mode() == DBModeWAL {
+		db.dirtyPageSet[1] = struct{}{}
+	}
+
 	// Build sorted list of dirty page numbers.
 	pgnos := make([]uint32, 0, len(db.dirtyPageSet))
 	for pgno := range db.dirtyPageSet {
